@@ -55,3 +55,11 @@ func (app *App) VerifDBClosed() (closed bool) {
 	_, err := app.Context.db.Has([]byte("verif-probe"))
 	return err != nil
 }
+
+// VerifCloseStores closes the two node-local stores that Context.Close() leaves open (job store and
+// lock-script store), so that a harness creating thousands of instances does not leak them.
+func (app *App) VerifCloseStores() {
+	defer func() { recover() }()
+	_ = app.Context.jobStore.Close()
+	_ = app.Context.lockScriptStore.Close()
+}
